@@ -199,6 +199,10 @@ def gen_case(rng, tier):
 
 # ----------------------------------------------------------------------------------------
 
+# forms in which the values reach _sample_array as python lists / tuples (no dtype of their own)
+NARROWING_FORMS = {'tuple_lists', 'dicts', 'gen', 'dict', 'dict_labels', 'lists', 'list_1d'}
+
+
 class Ctx:
     def __init__(self):
         self.T = LabelTable()
@@ -738,6 +742,7 @@ def run_as(c):
         if m == 1 and n:
             forms["list_1d"] = lambda: list(rows[0])
     outs = []
+    narrow_terms = []
     feats = {"kind": "as"}
     fail = None
     for name, mk in forms.items():
@@ -757,8 +762,15 @@ def run_as(c):
                 fail = fail or f"as_samples returned a {a.ndim}-d array for form {name}"
                 continue
             outs.append("(Some (%s, %s))" % (clist([cnat(T.idx(l)) for l in ls]), clist([clist([cq(F(x)) for x in r]) for r in a])))
+            if name in NARROWING_FORMS and "dtype" not in kw and not isfloat and m and n:
+                # a list-like input without dtype: _sample_array picks the smallest signed integer type
+                width = a.dtype.itemsize * 8 if a.dtype.kind == 'i' else 0
+                narrow_terms.append(f"(NarrowCase {clist([cz(x) for r in rows for x in r])} (Some {cnat(width)}))")
+                if any(int(x) != int(y) for r, q in zip(a.tolist(), [[rows[k][labels.index(l)] for l in ls] for k in range(m)])
+                       for x, y in zip(r, q)):
+                    fail = fail or f"as_samples changed a value while narrowing the dtype (form {name})"
     coq = (f"(AsCase {clist([cnat(T.idx(l)) for l in labels])} {clist([clist([cq(F(x)) for x in r]) for r in rows])} {clist(outs)})")
-    return {"coq": coq, "py_fail": fail, "features": feats, "nontrivial": m > 0 and n > 1}
+    return {"coq": coq, "extra_coq": narrow_terms[:4], "py_fail": fail, "features": feats, "nontrivial": m > 0 and n > 1}
 
 
 def run_case(c):
